@@ -31,7 +31,7 @@ from .pathcond import Analysis
 from .respser import parent_map
 
 LEVEL = "other"
-CONFIGS = ["k9"]
+CONFIGS = ["k8", "k9"]
 
 UNWRAP = "core::result::Result::<T, E>::unwrap"
 TRY_INTO = "core::convert::TryInto::try_into"
@@ -288,6 +288,9 @@ def run(ctx):
                         rule, detail = utf8_prefix(fn, A, nodes[0])
                 elif inst["def"] == "arbitrary::arbitrary_byte_array" and (kind.startswith("cast:") or kind in ("rawderef", "assert:misaligned", "assert:null_deref")):
                     rule, detail = transparent_cast(F, fn, A, ev, kind)
+                if rule is None and detail is None:
+                    from . import oblig_rules as ORg
+                    rule, detail = ORg.discharge(F, inst, ev, kind)
                 ctx.oblige(key, rule is not None, "undischarged obligation in generated-input code: %s in %s (%s): %s; path %s" % (kind, inst["name"][:80], ev.get("sp"), detail, " -> ".join(R.path_to(inst["i"])[-3:])),
                            cfg=cfg, where=ev.get("sp"))
                 if rule:
